@@ -77,3 +77,24 @@ CLAIMS["C19"] = dict(
          "ignores its seed (not among the documented seeders): noted, not claimed. Until the proposed fixes are applied the check reports the genuine defects "
          "pchisq:returns-pdf, dchisq:raises, dbeta:log-ignored, qpois:log-ignored, runif:int-seed-ignored, pnbinom/qnbinom/rnbinom:stub.",
     technique="Python-AST translator -> generated Lean tables checked by `decide` against a decidable specification; Mathlib density lemmas; differential correspondence with mpmath oracles and recorded generators")
+CLAIMS["C09"] = dict(
+    text="Proved in Lean for every list of distinct parameter names, every value type and every history of assignments of any length, about a "
+         "line-by-line model of the `parameters` setter (insertion-ordered dict with string keys from positional input and symbol keys from pair "
+         "lists / dicts, dict input extending the existing dict, the `_paramValue` unroll loop): every acceptable assignment (list/tuple/array of n "
+         "numbers, n (name,value) pairs in any order, a dict of at most n known names keyed by name or Symbol) is accepted and changes the "
+         "name->value map exactly as the two-line spec says (full assignment replaces every name, partial update overrides only the names it "
+         "mentions) - the key invariant being that no entry of the same name follows a symbol-keyed entry, so the later duplicate key wins the "
+         "unroll loop; hence `_paramValue[i]` is the latest value supplied for `params[i]` after every history (atomic setter: arbitrary "
+         "histories incl. rejected assignments; setter as originally written: histories of accepted assignments, with machine-checked "
+         "counterexamples for rejected ones); permutation invariance of pair lists and dicts; all accepted forms agree; wrong lengths, too many "
+         "dict entries and unknown names are always rejected.  The model is tied to the code on every run by differential correspondence after "
+         "EACH assignment of random mixed-format histories (accept/reject + error kind, the public `parameters` getter, `ode(x,t)` against the "
+         "model's `_paramValue`), and a Lean-independent oracle checks `ode`/`grad` against the harness interpreter and a freshly built model "
+         "at the values a plain Python dict spec gives each name, that malformed input raises, and that a rejected assignment changes no evaluation.",
+    note="Trusted: Lean kernel + Mathlib; the harness (generator, printer, interpreter, the 40-line Python dict spec of the oracle). The setter variant "
+         "(does a rejected assignment leave `_parameters`/`_paramValue` touched) is measured on the tree under test by a fixed probe and passed to the "
+         "model; both variants are covered by theorems. Documented non-claims (stated as lemmas): a partial update on a never-set model binds the "
+         "unmentioned names to 0; a pair list may repeat a name (last wins, the name left out becomes 0); `'t'` resolves as a symbol and is "
+         "rejected only by the index lookup; a single-parameter scalar is always rejected (TypeError: unhashable ODEVariable); Symbol names in a "
+         "pair list are rejected. Not modelled: frozen-distribution / (callable,args) dict values (C16), ODEVariable parameters whose name differs from their ID.",
+    technique="Lean 4 refinement proof (abstraction to a name->value map, representation invariant, induction over histories) + model/code correspondence + direct oracle")
